@@ -23,7 +23,7 @@ OpsFan == {"ok", "err", "panic"}
 \* the stage x alone
 Solo(pk, po, as) ==
   InitWith([x |-> << >>], "x", [x |-> as], [x |-> "tree"],
-           [kids |-> pk, out |-> po, root |-> [x |-> "p0"]])
+           [kids |-> pk, out |-> po, root |-> [x |-> "p0"]], [x |-> -1])
 
 \* r -> (x, b): r and b have a plan of one successful operator
 Fan(pk, po, as) ==
@@ -31,7 +31,7 @@ Fan(pk, po, as) ==
            [s \in {"r", "x", "b"} |-> "tree"],
            [kids |-> [n \in DOMAIN pk \cup {"r0", "b0"} |-> IF n \in DOMAIN pk THEN pk[n] ELSE << >>],
             out  |-> [n \in DOMAIN pk \cup {"r0", "b0"} |-> IF n \in DOMAIN pk THEN po[n] ELSE "ok"],
-            root |-> [r |-> "r0", x |-> "p0", b |-> "b0"]])
+            root |-> [r |-> "r0", x |-> "p0", b |-> "b0"]], [s \in {"r", "x", "b"} |-> -1])
 
 MCInit ==
   \/ \E pk \in MCPlansSolo : \E po \in [DOMAIN pk -> Ops] : \E as \in BOOLEAN : Solo(pk, po, as)
